@@ -1,6 +1,95 @@
+(* C17 -- Boolean, comparison and range rewrites are logically equivalent.
+   Property theorems only; every proof is `exact <lemma>`; Print Assumptions under each. *)
 From Coq Require Import List ZArith Bool Lia.
-Require Import Pyrefact.BoundModel.
+Import ListNotations.
+Require Import Pyrefact.Ops PyrefactGen.Tables Pyrefact.BoundModel Pyrefact.BoolRwModel Pyrefact.BoundProofs.
 Open Scope Z_scope.
-Theorem placeholder_opposite_involutive : forall o, opposite (opposite o) = o.
-Proof. destruct o; reflexivity. Qed.
-Print Assumptions placeholder_opposite_involutive.
+
+(* T17.1 the regenerated REVERSE_OPERATOR_MAPPING is total and maps every operator to its negation
+   (for every pair of integers; membership / identity are arbitrary relations). *)
+Theorem T17_1_reverse_total : forall o, reverse_op o <> None.
+Proof. exact reverse_op_total. Qed.
+Print Assumptions T17_1_reverse_total.
+
+Theorem T17_1_reverse_negates :
+  forall mem same o o' x y,
+    reverse_op o = Some o' -> cmpop_sem mem same o' x y = negb (cmpop_sem mem same o x y).
+Proof. exact reverse_op_negates. Qed.
+Print Assumptions T17_1_reverse_negates.
+
+(* T17.2 _negate_condition: for every condition tree and every valuation the negated condition has
+   the opposite truth value and evaluates exactly the same opaque terms in the same order. *)
+Theorem T17_2_negate_condition :
+  forall mem same term atom c,
+    ceval mem same term atom (negate c) =
+      (negb (fst (ceval mem same term atom c)), snd (ceval mem same term atom c)).
+Proof. exact negate_sound. Qed.
+Print Assumptions T17_2_negate_condition.
+
+(* T17.3 the 6x6 bound table is sound for EVERY integer x and all constants. *)
+Theorem T17_3_table_sound :
+  forall o1 c1 o2 c2 x,
+    let v := table o1 c1 o2 c2 in
+    let p := cmp_sem o1 x c1 in
+    let q := cmp_sem o2 x c2 in
+    (v_false v = true -> p && q = false) /\
+    (v_true v = true -> p || q = true) /\
+    (v_and v = RmFirst -> implies q p) /\ (v_and v = RmSecond -> implies p q) /\
+    (v_or v = RmFirst -> implies p q) /\ (v_or v = RmSecond -> implies q p).
+Proof. exact table_sound. Qed.
+Print Assumptions T17_3_table_sound.
+
+(* T17.3b the table's verdict depends only on the operator pair and on compare c1 c2, so the
+   correspondence enumeration over constants {0,1,2} is complete for the table. *)
+Theorem T17_3b_table_depends_on_compare :
+  forall o1 o2 c1 c2 d1 d2, (c1 ?= c2) = (d1 ?= d2) -> table o1 c1 o2 c2 = table o1 d1 o2 d2.
+Proof. exact table_depends_on_compare. Qed.
+Print Assumptions T17_3b_table_depends_on_compare.
+
+(* T17.3 n-ary: the whole BoolOp branch of simplify_boolean_expressions (opposite operands, nested
+   same-operator flattening, pair scan, triple rule, direct-operand removal, constant folding)
+   preserves the truth value for every operand list of every length and every valuation. *)
+Theorem T17_3_simplify_sound :
+  forall isand vs rho sigma,
+    match simplify isand vs with
+    | RConst b => eval_list rho sigma isand vs = b
+    | RValues vs' => eval_list rho sigma isand vs' = eval_list rho sigma isand vs
+    | RNone => True
+    end.
+Proof. exact simplify_sound. Qed.
+Print Assumptions T17_3_simplify_sound.
+
+(* T17.4 remove_redundant_boolop_values: for every mask and every operand list consistent with it,
+   the kept operands give the same VALUE (not just truthiness) and evaluate the same unknown
+   operands in the same order. *)
+Theorem T17_4_redundant_sound :
+  forall (truth : Z -> bool) isand mask (ops : list (nat * Z)),
+    length mask = length ops -> ops <> [] ->
+    NoDup (map fst ops) ->
+    Forall2 (consistent Z truth) mask (map snd ops) ->
+    let kept := keep (redundant isand mask) ops in
+    let unk := unknown_ids mask ops in
+    kept <> [] /\
+    fst (bool_val Z truth isand kept) = fst (bool_val Z truth isand ops) /\
+    filter (fun i => existsb (Nat.eqb i) unk) (snd (bool_val Z truth isand kept)) =
+    filter (fun i => existsb (Nat.eqb i) unk) (snd (bool_val Z truth isand ops)).
+Proof. exact redundant_sound. Qed.
+Print Assumptions T17_4_redundant_sound.
+
+(* T17.9 / R17.10 sum(range(a, b)): the closed form is right for a <= b and refuted for b < a
+   (known finding F17-1). *)
+Theorem T17_9_sum_range_partial :
+  forall a b, a <= b -> 2 * sum_range a b = sum_range_closed2 a b.
+Proof. exact sum_range_closed_form. Qed.
+Print Assumptions T17_9_sum_range_partial.
+
+Theorem R17_10_sum_range_refuted :
+  exists a b, b < a /\ 2 * sum_range a b <> sum_range_closed2 a b.
+Proof. exact sum_range_closed_form_refuted. Qed.
+Print Assumptions R17_10_sum_range_refuted.
+
+(* non-vacuity: a 4-operand formula on which three different parts of the analysis fire *)
+Example T17_example :
+  simplify true [OCmp 0 BGt 1 false; OCmp 0 BGe 1 false; OVar 0; OCmp 0 BLt 5 false]
+  = RValues [OCmp 0 BGt 1 false; OVar 0; OCmp 0 BLt 5 false].
+Proof. vm_compute. reflexivity. Qed.
